@@ -18,20 +18,53 @@ from rules.c02 import engine, TASK, ARC_TASK_IMPL, site_key, is_dead
 PROC = "acts::scheduler::process::process::Process"
 
 
+EMIT_MESSAGE = re.compile(r"^acts::event::emitter::Emitter::emit_message$")
+
+
 class Emit2Mon(T.Monitor):
-    """last emitted (state) since the last write on the tracked task"""
-    init = None
+    """(last emitted state, last state a message was built for, is the current state one the analysed code wrote itself?)
+    since the last write on the tracked task.
+    The message of a task event is built at the END of the on_task handler, from the state the task has THEN: a hook that
+    runs in between (a catch without steps reviews and completes the task, a setup act answers it) emits the task again from
+    inside, and the outer handler then builds a second message for the same final state. Messages are only compared while
+    the state is one the explored path wrote itself (`exact`): a state re-chosen for an un-inlined call is a guess, and two
+    messages for a guessed state are not evidence."""
+    init = (None, None, True)
+    reentrant = False   # follow re-entrant endings (only where the re-entrant path was shown to be feasible: review)
 
     def on_event(self, mon, ev):
+        if not isinstance(mon, tuple):
+            mon = (mon, None, True)
+        if len(mon) == 2:
+            mon = (mon[0], mon[1], True)
+        em, msg, exact = mon
         if ev[0] == "WRITE":
-            return None
+            return (None, None, True)
+        if ev[0] == "HAVOC_TO":
+            # a call that re-enters the protocol (a resumed child finishing inside its exec reviews its parent) ended the
+            # tracked task: by C01.R6 whoever ends a task reports it in that state before returning, so it HAS been
+            # emitted (and its message built) in ev[2]
+            if self.reentrant and ev[2] in T.TERMINAL:
+                return ("re:" + ev[2], None, False)
+            return (em, None, False)
+        if ev[0] == "ENV":
+            return (em, None, False)
         if ev[0] == "EMIT_EVENT":
             s = ev[1]
             if s in ("Running", "Pending"):
                 return mon
-            if mon == s:
+            if em == s:
                 return ("VIOL", (s, ev[2], ev[3]))
-            return s
+            if em == "re:" + s:
+                return ("VIOL", ("re:" + s, ev[2], ev[3]))
+            return (s, msg, exact)
+        if ev[0] == "EFFECT" and EMIT_MESSAGE.search(ev[1]) and len(ev) > 6 and ev[6]:
+            s = ev[5]
+            if not exact:
+                return mon
+            if msg == s:
+                return ("VIOL", ("msg:" + s, ev[2], ev[3]))
+            return (em, s, exact)
         return mon
 
 
@@ -316,19 +349,44 @@ def r5(cx, rule):
     entries.append((m.one(r"^%s::run_hooks_timeout$" % TASK), "tick", {"announced": True}))
     entries[1] = (entries[1][0], "update", {"announced": True})
     dups = {}
+    msgdups = {}
+    redups = {}
     runs = 0
-    for f, label, kw in entries:
-        kw = dict(kw)
-        announced = kw.pop("announced", False)
-        for s0 in T.STATES:
-            mon0 = Emit2Mon()
-            if announced and s0 not in ("Running", "Pending", "None"):
-                mon0.init = s0
-            viol = eng.run(f, s0, mon0, **kw)
-            runs += 1
-            for payload, path in viol:
-                s, q, b = payload
-                dups.setdefault((q, b, s), (label, s0, path))
+    eng.set_effects(EMIT_MESSAGE, [q for q in m.fns if EMIT_MESSAGE.search(q)])
+    try:
+        for f, label, kw in entries:
+            kw = dict(kw)
+            announced = kw.pop("announced", False)
+            for s0 in T.STATES:
+                mon0 = Emit2Mon()
+                mon0.reentrant = (label == "review")
+                if announced and s0 not in ("Running", "Pending", "None"):
+                    mon0.init = (s0, s0, True)
+                viol = eng.run(f, s0, mon0, **kw)
+                runs += 1
+                for payload, path in viol:
+                    s, q, b = payload
+                    if s.startswith("msg:"):
+                        msgdups.setdefault(s[4:], (label, s0, path, q, b))
+                    elif s.startswith("re:"):
+                        redups.setdefault((q, b), (label, s0, path, set()))[3].add(s[3:])
+                    else:
+                        dups.setdefault((q, b, s), (label, s0, path))
+    finally:
+        eng.set_effects(None)
+    if msgdups:
+        s, (label, s0, path, q, b) = sorted(msgdups.items())[0]
+        cx.ob(rule, "double-message", False,
+              "two messages are built for the task in one state (%s) with no state change in between (entry %s from %s): the on_task handler builds the message after the hooks ran, from the state the task has then - a hook that ended the task has already reported that ending from inside" % (
+                  "/".join(sorted(msgdups)), label, s0), m.fns[q].loc(b), path=[T.fmt_event(m, e) for e in path[-9:]])
+    for (q, b), (label, s0, path, states) in sorted(redups.items()):
+        em = [e for e in path if e[0] == "EMIT"]
+        who = short_name(em[-1][2]) if em else short_name(q)
+        cx.ob(rule, "double-emit-reentrant:%s" % who, False,
+              "`%s` emits the task after a call that re-entered the protocol had already ended AND reported it (states %s): a child resumed inline finishes inside its exec, its ending reviews this parent, completes and emits it; back in the outer review the state differs from the one read before, and it is emitted again" % (
+                  who, "/".join(sorted(states))), m.fns[q].loc(b), path=[T.fmt_event(m, e) for e in path[-7:]])
+    if not msgdups:
+        cx.ob(rule, "double-message:none", True, "no path builds two messages for the tracked task in one state (%d runs)" % runs, entries[0][0].loc())
     sites = set()
     for (q, b, s), (label, s0, path) in sorted(dups.items(), key=lambda kv: (kv[0][0], kv[0][1], kv[0][2])):
         # the site of the *first* emission identifies the pair best: last two EMIT_EVENTs of the path
